@@ -9,7 +9,7 @@ import (
 
 func init() {
 	register("C03", propMeta{
-		Explanation: "Decides, on every path of the current source: in Keeper.AcknowledgePacket every write, event and success return is dominated by (i) the equal edge of bytes.Equal(stored commitment of the packet's own (source,dest,sequence), CommitPacket(packet)), (ii) the nil-error edge of ClientState.VerifyPacketAcknowledgement whose arguments are bound to the packet's src/dst/seq, CommitAcknowledgement(ack parameter), the submitted proof/height and the client+store of the dest-or-relay chain, and every success path deletes the commitment under the same key; msgServer.Acknowledgement runs the application callback only after keeper success with the same msg.Packet/msg.Acknowledgement; WriteAcknowledgement stores CommitAcknowledgement(ack) only past the non-empty and not-yet-written guards (same key); the bytes written in msgServer.RecvPacket are what OnRecvPacket returned; acknowledgements are written only from WriteAcknowledgement, the relay branch of AcknowledgePacket and InitGenesis; the three light clients' VerifyPacketAcknowledgement succeed only through height bound, consensus state at proof height, delay and a membership call over the ack key and claimed value. NOT decided: refund value exactness, forged-ack histories.",
+		Explanation: "Decides, on every path of the current source: in Keeper.AcknowledgePacket every write, event and success return is dominated by (i) the equal edge of bytes.Equal(stored commitment of the packet's own (source,dest,sequence), CommitPacket(packet)), (ii) the nil-error edge of ClientState.VerifyPacketAcknowledgement whose arguments are bound to the packet's src/dst/seq, CommitAcknowledgement(ack parameter), the submitted proof/height and the client+store of the dest-or-relay chain, and every success path deletes the commitment under the same key; msgServer.Acknowledgement runs the application callback only after keeper success with the same msg.Packet/msg.Acknowledgement; WriteAcknowledgement stores CommitAcknowledgement(ack) only past the non-empty and not-yet-written guards (same key); the bytes written in msgServer.RecvPacket are what OnRecvPacket returned; acknowledgements are written only from WriteAcknowledgement, the relay branch of AcknowledgePacket and InitGenesis; the three light clients' VerifyPacketAcknowledgement succeed only through height bound, consensus state at proof height, delay and a membership call over the ack key and claimed value. Also: the proof verifiers behind VerifyPacketAcknowledgement satisfy the Merkle / Merkle-Patricia obligations of C08, and the packet genesis restores commitments, acknowledgements and send sequences under the keys they were exported from (class agreement, component roles, unconditional). NOT decided: refund value exactness, forged-ack histories.",
 		Assumptions: []string{"cosmos-sdk store branching discards writes of failed messages"},
 		Trusted:     commonTrusted,
 	}, ruleC03)
